@@ -47,6 +47,9 @@ func checkC25(c *core.Ctx) {
 	c.NotDecided("that compiling and executing the rendered script yields those postings and the insufficient-funds verdict (numscript semantics; C22/C26 territory)")
 	ruleTxToScriptShape(c)
 	rulePostingsRequestCallers(c)
+	// "fails with insufficient funds iff applying the postings in order would overdraw": the VM's
+	// running balance must see every debit and credit, self-postings included (shared with C06)
+	ruleVMBalanceTracking(c)
 }
 
 // loopVarSel matches `<v>.<field>` for the given loop variable object.
